@@ -328,7 +328,7 @@ theorem coreResponse_cases (M : Nat) (req : Request) (st : BlockState) :
       | herr c => simp [computeMessageSize_err hsz, internal]
       | ok size =>
         simp only
-        cases hn : negotiate st.lastBlock2 size resp.payload.length M with
+        cases hn : negotiate st.lastBlock2 (size + tokenReserve resp) resp.payload.length M with
         | panic => exact absurd hn (negotiate_never_panics _ _ _ _)
         | herr c => simp [negotiate_err _ _ _ _ _ hn, internal]
         | ok r =>
@@ -552,7 +552,7 @@ theorem coreResponse_fragment (M : Nat) (req : Request) (st : BlockState) (resp 
     (rb2 : BlockValue)
     (hr : req.response = some resp) (hno : resp.getOption block2Num = none)
     (hsz : computeMessageSize resp = .ok size)
-    (hn : negotiate st.lastBlock2 size resp.payload.length M = .ok (some rb2)) :
+    (hn : negotiate st.lastBlock2 (size + tokenReserve resp) resp.payload.length M = .ok (some rb2)) :
     coreResponse M req st =
       match serveCached req rb2 resp with
       | (req', .ok true) => (req', { st with cachedResponse := some resp }, .ok true)
@@ -563,7 +563,7 @@ theorem coreResponse_fragment (M : Nat) (req : Request) (st : BlockState) (resp 
 theorem coreResponse_unfragmented (M : Nat) (req : Request) (st : BlockState) (resp : Packet) (size : Nat)
     (hr : req.response = some resp) (hno : resp.getOption block2Num = none)
     (hsz : computeMessageSize resp = .ok size)
-    (hn : negotiate st.lastBlock2 size resp.payload.length M = .ok none) :
+    (hn : negotiate st.lastBlock2 (size + tokenReserve resp) resp.payload.length M = .ok none) :
     coreResponse M req st = (req, st, .ok false) := by
   simp only [coreResponse, hr, hno, Option.isSome_none, Bool.false_eq_true, ↓reduceIte, hsz, hn]
 
